@@ -102,6 +102,13 @@ func (e *Env) String() string {
 	}
 
 	for symbol, value := range e.values {
+		if value.IsValid() && value.CanInterface() {
+			if _, isModule := value.Interface().(*Env); isModule {
+				// a module is named, not dumped: its tables are guarded by its own lock
+				buffer.WriteString(fmt.Sprintf("%v = module\n", symbol))
+				continue
+			}
+		}
 		buffer.WriteString(fmt.Sprintf("%v = %#v\n", symbol, value))
 	}
 
